@@ -331,6 +331,26 @@ def label_length_octet_cases():
         cs.append(Case('dec.dns %s' % hx(b'\0\0\0\0\0\1' + b'\0' * 6 + w + b'\0\1\0\1'), 'label-octet'))
         w2 = b'\1x\0' + bytes([n]) + b'b' * n + b'\xc0\x00'
         cs.append(Case('dec.question %s' % hx(w2[3:] + b'\0\1\0\1'), 'label-octet'))
+    # the same length octets over MULTI-OCTET UTF-8 content: a label of 64..191 octets has fewer than 64 characters, so a
+    # limit counted in characters (or in anything but octets) lets the reserved label types 01/10 through
+    for ch in (b'\xc3\xa9', b'\xe2\x82\xac', b'\xf0\x90\x80\x80'):
+        for n in (62, 63, 64, 65, 66, 100, 126, 128, 129, 189, 191):
+            body = ch * (n // len(ch)); body += b'a' * (n - len(body))
+            w = bytes([n]) + body + b'\0'
+            cs.append(Case('dec.name %s' % hx(w), 'label-octet-utf8'))
+            cs.append(Case('dec.dns %s' % hx(b'\0\0\0\0\0\1' + b'\0' * 6 + w + b'\0\1\0\1'), 'label-octet-utf8'))
+            cs.append(Case('dec.rr %s' % hx(b'\1x\0\0\2\0\1\0\0\0\0' + (len(w)).to_bytes(2, 'big') + w), 'label-octet-utf8'))
+        # names of 254..257 wire octets made of multi-octet labels (the 255 limit counts octets as well)
+        for total in (254, 255, 256, 257, 300):
+            labs = []; rem = total - 1
+            while rem > 0:
+                l = min(63, rem - 1)
+                if rem - 1 - l == 1: l -= 1
+                body = ch * (l // len(ch)); body += b'a' * (l - len(body))
+                labs.append(body); rem -= l + 1
+            w = b''.join(bytes([len(l)]) + l for l in labs) + b'\0'
+            cs.append(Case('dec.name %s' % hx(w), 'name-limit-utf8'))
+            cs.append(Case('dec.dns %s' % hx(b'\0\0\0\0\0\1' + b'\0' * 6 + w + b'\0\1\0\1'), 'name-limit-utf8'))
     return cs
 
 def reserved_label_type_cases():
@@ -634,6 +654,43 @@ def C04(tier, rng):
     for clen in (8, 16, 17, 39, 40):
         m = msg_with([{'ty': 41, 'payload': 1232, 'ext': 0, 'ver': 0, 'do': 0, 'opts': [('cookie', b'12345678', None if clen == 8 else bytes(clen - 8))]}])
         b, _ = render(m); cs.append(Case('dec.dns %s' % hx(b), 'cookie%d' % clen, exp=abs_msg_text(m)))
+    cs += root_pointer_cases()
+    return cs
+
+def root_pointer_cases():
+    """names that END in a compression pointer to the zero octet terminating an earlier name (the root is a name like any
+    other: the pointer is backward, to a prior name, one hop), alone, after labels, and through a chain of such pointers"""
+    cs = []
+    hdr = lambda qd, an: b'\0\7\x81\x80' + qd.to_bytes(2, 'big') + an.to_bytes(2, 'big') + b'\0\0\0\0'
+    # question `a.` at 12: `01 61 00`, its root octet at 14; question `.` at 12: root octet at 12
+    q_a = b'\1a\0\0\2\0\1'; q_root = b'\0\0\2\0\1'
+    rrtail = lambda rd: b'\0\2\0\1\0\0\x0e\x10' + len(rd).to_bytes(2, 'big') + rd
+    m_root = {'id': 7, 'flags': (1, 0, 0, 0, 1, 1, 0, 0, 0)}
+    for q, rootoff, qname in ((q_a, 14, (b'a',)), (q_root, 12, ())):
+        p = (0xC000 | rootoff).to_bytes(2, 'big')
+        base = 12 + len(q)
+        variants = [
+            (p, (), b'\0', ()),                                  # owner = pointer to the root, RDATA name = plain root
+            (p, (), p, ()),                                       # both
+            (b'\1b' + p, (b'b',), b'\1c\1d' + p, (b'c', b'd')),  # labels, then the pointer to the root
+            (b'\1b' + p, (b'b',), (0xC000 | base).to_bytes(2, 'big'), (b'b',)),   # pointer to a name that ends in such a pointer
+        ]
+        for owner_w, owner, rd_w, rdname in variants:
+            b = hdr(1, 1) + q + owner_w + rrtail(rd_w)
+            m = {'id': 7, 'flags': {'qr': 1, 'opcode': 0, 'aa': 0, 'tc': 0, 'rd': 1, 'ra': 1, 'ad': 0, 'cd': 0, 'rcode': 0},
+                 'qd': [{'name': qname, 'qtype': 2, 'qclass': 1}], 'an': [{'ty': 2, 'name': owner, 'ttl': 3600, 'cls': 1, 'f': [rdname]}], 'ns': [], 'ar': []}
+            try: exp = abs_msg_text(m)
+            except Exception: exp = 'ACCEPT'
+            cs.append(Case('dec.dns %s' % hx(b), 'root-pointer', exp=exp))
+        # a chain of k pointers, each to the next, the last to the root octet: accepted up to the hop limit
+        for k in (2, 5, 16, 17, 18):
+            ptrs = b''.join((0xC000 | (base + 2 * (i + 1))).to_bytes(2, 'big') for i in range(k - 1)) + p
+            # the chain lives in a NULL record's RDATA; the second record's owner points at its first pointer
+            rr1 = b'\0\0\x0a\0\1\0\0\0\0' + len(ptrs).to_bytes(2, 'big')
+            off = 12 + len(q) + len(rr1)
+            ptrs = b''.join((0xC000 | (off + 2 * (i + 1))).to_bytes(2, 'big') for i in range(k - 1)) + p
+            b = hdr(1, 2) + q + rr1 + ptrs + (0xC000 | off).to_bytes(2, 'big') + rrtail(b'\0')
+            cs.append(Case('dec.dns %s' % hx(b), 'root-pointer-chain%d' % k, exp='ACCEPT' if k + 1 <= 17 else None))
     return cs
 
 def C09(tier, rng):
